@@ -1,0 +1,22 @@
+//go:build verif
+
+package jerr
+
+// Read-only accessors used by the /verif correspondence harness.
+
+// VerifFileName is the name of the file the error is located in.
+func (l Location) VerifFileName() string {
+	if l.file == nil {
+		return ""
+	}
+	return l.file.Name()
+}
+
+// VerifTrace returns the include trace as (path, line) pairs, innermost first.
+func (e *JApiError) VerifTrace() (paths []string, lines []uint) {
+	for _, i := range e.includeTrace {
+		paths = append(paths, i.path)
+		lines = append(lines, uint(i.atLine))
+	}
+	return paths, lines
+}
